@@ -144,6 +144,17 @@ CHECKS = {
             "Five configurations (GCM, CBC, CCM-8 with CID, DTLS 1.3 GCM, DTLS 1.3 ChaCha20 with CID).",
             "A record whose first arrival is W or more behind the newest accepted one may be dropped or delivered (not judged).",
             "DESIGN.md §4 C06"),
+    "C07": ("exploration",
+            "runtime monitoring of the wire log: every datagram an endpoint emits is searched for secrets in clear and every "
+            "record header is classified; injected epoch-0 application data; exporter outputs compared with a family of public derivations",
+            "Generated sessions for every suite/version/CID layout (perfect and faulted delivery, 1-4 writers per side, started before the "
+            "handshake when no timer is needed) and real-scheduler runs with Writes, Close and forged alerts at PRNG instants during a lossy "
+            "handshake. Needles: unique >=24-byte payload markers, both Finished verify_data, and for DTLS 1.3 the plaintext of every handshake "
+            "and post-handshake message after ServerHello (taken from the endpoints' handshake caches). Record rule: only the message types the "
+            "protocol sends in clear may appear in epoch-0 records; application/tls12_cid records never with epoch 0. Exporter outputs are "
+            "checked against P_hash / HKDF exporters keyed by empty, zero or public values.",
+            "Secrecy is not observable; (d) is refutation against an explicit finite family. Timing channels are out of reach.",
+            "DESIGN.md §4 C07"),
 }
 
 NOT_YET = "monitor not built yet in this session (see DESIGN.md for the planned design)"
